@@ -618,6 +618,16 @@ func (e *Engine) regexInit(g *ssa.Global) (string, bool) {
 			if !ok || st.Addr != g {
 				continue
 			}
+			// "var X = otherpkg.Y": follow the alias
+			if ld, ok := st.Val.(*ssa.UnOp); ok && ld.Op == token.MUL {
+				if g2, ok := ld.X.(*ssa.Global); ok {
+					lit, ok := e.regexInit(g2)
+					if ok {
+						regexInitMemo[g] = lit
+					}
+					return lit, ok
+				}
+			}
 			call, ok := st.Val.(*ssa.Call)
 			if !ok {
 				return "", false
